@@ -2,7 +2,7 @@
 reference nodelist, through finditer / findall / compile().findall."""
 from __future__ import annotations
 
-from . import hooks, impl, ref_jsonpath as ref
+from . import hooks, impl, ref_jsonpath as ref, ref_regex
 from .jsonval import canon, h
 
 
@@ -12,7 +12,13 @@ def check_query_case(ctx, ast, doc, text, cls, *, extra=None, env=None, nontrivi
     env = env or jsonpath.DEFAULT_ENV
     ctx.evaluation()
     if model is None:
-        model = ref.eval_query(ast, doc, extra=extra, keys_prefix=keys_prefix)
+        try:
+            model = ref.eval_query(ast, doc, extra=extra, keys_prefix=keys_prefix)
+        except ref_regex.Unsupported:
+            # a pattern taken from the document lies outside the I-Regexp / re common
+            # dialect: the property does not cover it
+            ctx.count("regex_outside_common_dialect_skipped")
+            return True
     case = {"class": cls, "ast": ast, "doc": doc, "text": text}
     if extra is not None:
         case["extra"] = extra
